@@ -7,6 +7,7 @@ from checks import common
 TRACE_CFG = "INIT TraceInit\nNEXT TraceNext\nINVARIANT ContractHolds\nINVARIANT SoftHolds\nPOSTCONDITION TraceAccepted\nCHECK_DEADLOCK FALSE\n"
 MC_CFG = "SPECIFICATION MCSpec\nINVARIANT MCInv\nPROPERTY EverythingRead\nCHECK_DEADLOCK FALSE\n"
 MC_SAFE_CFG = "INIT MCInit\nNEXT MCNext\nVIEW MCView\nINVARIANT MCInv\nCHECK_DEADLOCK FALSE\n"
+INJ_CFG = "INIT InjInit\nNEXT InjNext\nINVARIANT EmitInj\nCHECK_DEADLOCK FALSE\n"
 COVER_CFG = "INIT GenInit\nNEXT CoverNext\nVIEW CoverView\nINVARIANT EmitCover\nCHECK_DEADLOCK FALSE\n"
 GEN_CFG = "INIT GenInit\nNEXT GenNext\nINVARIANT EmitGen\nCHECK_DEADLOCK FALSE\n"
 
@@ -92,6 +93,14 @@ def run(pid, tier, rep):
     rep.add_mc("Gen_StreamCover", g)
     vlib.vh(["streams-replay", beh, trace])
     validate(rep, pid, "tlc-transition-cover", trace)
+    # 2c. hostile frames after every short schedule that left something at the receiver
+    beh = os.path.join(wd, "beh_inject.ndjson")
+    trace = os.path.join(wd, "trace_inject.ndjson")
+    g = vlib.tlc_gen(pid, "Gen_StreamInject", INJ_CFG, {"MaxLen": 2, "MaxNet": 2, "S": '"cli"', "SID": 2, "Win": 100, "CWin": 100, "Depth": 0,
+                                                          "InjDepth": 5 if quick else 6}, beh, workers=min(vlib.NCPU, 8))
+    rep.add_mc("Gen_StreamInject", g)
+    vlib.vh(["streams-replay", beh, trace])
+    validate(rep, pid, "tlc-hostile-injection", trace)
     # 3. seeded random long schedules (0-RTT, hostile injections, all parameter combinations)
     beh = os.path.join(wd, "beh_random.ndjson")
     trace = os.path.join(wd, "trace_random.ndjson")
